@@ -209,10 +209,12 @@ func Compose(dst, src Sliceable, fs feat.Set) error {
 		if f.End() < f.Start() {
 			return errors.New("sequtils: feature end < feature start")
 		}
-		l := min(f.End(), end) - max(f.Start(), offset)
+		l := max(0, min(f.End(), end)-max(f.Start(), offset))
 		tl += l
 		t[i] = sl.Make(l, l)
-		t[i].Copy(sl.Slice(max(f.Start()-offset, 0), min(f.End()-offset, pLen)))
+		if l > 0 {
+			t[i].Copy(sl.Slice(max(f.Start()-offset, 0), min(f.End()-offset, pLen)))
+		}
 	}
 
 	c := sl.Make(0, tl)
